@@ -65,10 +65,11 @@ def build_table(rows, *, label_enc="1/-1", extra_levels=(), nfeat=2, key_cols=("
         "ExpMass": [k[1] for k in keyed],
     }
     if share2:
-        # spectra 2j-1 and 2j agree on the scan number (and the retention time) and differ only in the mass: distinct spectra
+        # the 2j-th and (2j+1)-th spectrum of the table agree on the scan number (and the retention time) and differ only in the mass: distinct spectra
         # that share the first two key columns
-        d["ScanNr"] = [(int(r["spec"]) + 1) // 2 for r in rows]
-        d["ExpMass"] = [500.0 + int(r["spec"]) for r in rows]
+        pos = {sp: k for k, sp in enumerate(sorted({int(r["spec"]) for r in rows}))}      # spectra numbered 0, 1, 2, ... within the table
+        d["ScanNr"] = [pos[int(r["spec"])] // 2 + 1 for r in rows]
+        d["ExpMass"] = [500.0 + pos[int(r["spec"])] for r in rows]
     if "ret_time" in key_cols and share2:
         d["ret_time"] = [10.0 for r in rows]
     elif "ret_time" in key_cols:
